@@ -10,16 +10,15 @@ import DulwichModel.Lemmas.PktLine
 namespace Dulwich.Props.C19
 open Dulwich Dulwich.PktLine
 
-/-! ## 1. Frames: `pkt_line` output is a well-formed frame iff the payload fits four hex digits -/
+/-! ## 1. Frames: `pkt_line` frames what fits one pkt-line and refuses the rest -/
 
 /-- `f` is a four-byte length prefix that `_parse_pkt_line_length` reads as `|p| + 4`, followed by `p`. -/
 def WellFramed (f p : Bytes) : Prop :=
   ∃ pre, pre.length = 4 ∧ f = pre ++ p ∧ parseLen pre = .ok (p.length + 4)
 
-/-- **Frame well-formedness.**  `pkt_line(p)` is a well-formed frame exactly when `|p| + 4 ≤ 0xFFFF`;
-`pkt_line` neither splits nor refuses anything (it is total), so beyond that it emits a malformed
-frame — see the two counterexamples below. -/
-theorem frame_well_formed (p : Bytes) : WellFramed (pktLine (some p)) p ↔ p.length + 4 ≤ 0xFFFF := by
+/-- The formatting step `f"{len(p) + 4:04x}" + p` on its own yields a well-formed frame exactly when
+`|p| + 4 ≤ 0xFFFF` (the format pads, it never truncates): why the size check in `pkt_line` is needed. -/
+theorem frame_well_formed (p : Bytes) : WellFramed (frame (some p)) p ↔ p.length + 4 ≤ 0xFFFF := by
   constructor
   · intro ⟨pre, hl, he, _⟩
     by_cases h : p.length + 4 ≤ 0xFFFF
@@ -27,60 +26,60 @@ theorem frame_well_formed (p : Bytes) : WellFramed (pktLine (some p)) p ↔ p.le
     · exfalso
       have hlong := fmtHex_long 4 (p.length + 4) (by omega)
       have := congrArg List.length he
-      rw [pktLine_data] at this
+      rw [frame_data] at this
       simp only [List.length_append] at this
       omega
   · intro h
-    exact ⟨fmtHex 4 (p.length + 4), fmtHex_length _ (by omega), pktLine_data p, parseLen_fmtHex _ (by omega)⟩
+    exact ⟨fmtHex 4 (p.length + 4), fmtHex_length _ (by omega), frame_data p, parseLen_fmtHex _ (by omega)⟩
 
-/-- The property's clause "payloads too large for one frame are split or refused, never emitted as a
-malformed frame", for an encoder that (as coded) always returns exactly one frame: the frame would
-have to be well-formed and within git's `LARGE_PACKET_MAX` for every payload.  False as coded
-(`frame_statement_counterexample`); what holds is `frame_within_git_max_partial`. -/
-def FrameStatement : Prop :=
-  ∀ p : Bytes, WellFramed (pktLine (some p)) p ∧ (pktLine (some p)).length ≤ gitLargePacketMax
-
-/-- What the property asks for and the code only delivers below the limit: within git's
-`LARGE_PACKET_MAX` the frame is well-formed and no longer than a conforming peer accepts.
-Missing for the full `FrameStatement`: `pkt_line` would have to refuse (or split) longer payloads. -/
-theorem frame_within_git_max_partial (p : Bytes) (h : p.length + 4 ≤ gitLargePacketMax) :
-    WellFramed (pktLine (some p)) p ∧ (pktLine (some p)).length ≤ gitLargePacketMax := by
+/-- **Frame statement (full).**  "Payloads too large for one frame are split or refused, never
+emitted as a malformed frame": for EVERY payload `pkt_line` either raises (ValueError) — exactly
+when the frame would exceed git's `LARGE_PACKET_MAX` — or returns a well-formed frame no longer
+than `LARGE_PACKET_MAX`.  (Depends on `MAX_PKT_LINE_DATA_LEN = 65516` from the source.) -/
+theorem frame_statement (p : Bytes) :
+    (pktLine (some p) = none ∧ gitLargePacketMax < p.length + 4) ∨
+    (∃ f, pktLine (some p) = some f ∧ WellFramed f p ∧ f.length ≤ gitLargePacketMax) := by
   have hg : gitLargePacketMax = 65520 := rfl
-  rw [hg] at h ⊢
-  refine ⟨(frame_well_formed p).mpr (by omega), ?_⟩
-  rw [pktLine_data, List.length_append, fmtHex_length _ (by omega)]
+  rw [hg]
+  by_cases h : 65516 < p.length
+  · exact Or.inl ⟨(pktLine_none_iff p).mpr h, by omega⟩
+  · refine Or.inr ⟨_, pktLine_some p (by omega), (frame_well_formed p).mpr (by omega), ?_⟩
+    rw [frame_data, List.length_append, fmtHex_length _ (by omega)]
+    omega
+
+/-- `pkt_line` refuses exactly the payloads that do not fit one frame of git's maximum size -/
+theorem pkt_line_refuses_iff (p : Bytes) : pktLine (some p) = none ↔ gitLargePacketMax < p.length + 4 := by
+  have hg : gitLargePacketMax = 65520 := rfl
+  rw [pktLine_none_iff, hg]
   omega
 
-example : WellFramed (pktLine (some [104, 105])) [104, 105] :=
-  (frame_well_formed _).mpr (by decide)
+example : ∃ f, pktLine (some [104, 105]) = some f ∧ WellFramed f [104, 105] := by
+  rcases frame_statement [104, 105] with ⟨h, _⟩ | ⟨f, h1, h2, _⟩
+  · exact absurd h (by decide)
+  · exact ⟨f, h1, h2⟩
 
-/-- Negation witness (F19a): a 65532-byte payload gets the five-digit prefix `10000` — for every
-such payload the output is not a frame (as coded: `f"{len(data) + 4:04x}"` pads, never truncates or
-refuses). -/
-theorem oversize_frame_counterexample (p : Bytes) (h : p.length = 65532) :
-    (pktLine (some p)).take 5 = [49, 48, 48, 48, 48] ∧ ¬ WellFramed (pktLine (some p)) p := by
-  refine ⟨?_, fun hw => ?_⟩
-  · rw [pktLine_data, h]
+/-- Regression witness (fixed F19a, PENDING-1): the old, total `pkt_line` gave a 65532-byte payload the
+five-digit prefix `10000` — for every such payload the output was not a frame. -/
+theorem old_pkt_line_five_digit_prefix_witness (p : Bytes) (h : p.length = 65532) :
+    (Old.pktLine (some p)).take 5 = [49, 48, 48, 48, 48] ∧ ¬ WellFramed (Old.pktLine (some p)) p ∧
+    pktLine (some p) = none := by
+  refine ⟨?_, fun hw => ?_, (pktLine_none_iff p).mpr (by omega)⟩
+  · show (frame (some p)).take 5 = _
+    rw [frame_data, h]
     have : fmtHex 4 (65532 + 4) = [49, 48, 48, 48, 48] := by decide
     rw [this]; rfl
   · have := (frame_well_formed p).mp hw
     omega
 
-/-- Negation witness (F19b): a 65517-byte payload is neither split nor refused: one 65521-byte
-frame comes out, longer than git's `LARGE_PACKET_MAX`. -/
-theorem over_git_max_counterexample (p : Bytes) (h : p.length = 65517) :
-    (pktLine (some p)).length = 65521 ∧ gitLargePacketMax < (pktLine (some p)).length := by
-  have : (pktLine (some p)).length = 65521 := by
-    rw [pktLine_data, List.length_append, fmtHex_length _ (by omega)]; omega
+/-- Regression witness (fixed F19b, PENDING-1): the old `pkt_line` framed a 65517-byte payload in one
+65521-byte frame, longer than git's `LARGE_PACKET_MAX`; the new one refuses it. -/
+theorem old_pkt_line_over_git_max_witness (p : Bytes) (h : p.length = 65517) :
+    gitLargePacketMax < (Old.pktLine (some p)).length ∧ pktLine (some p) = none := by
+  have : (Old.pktLine (some p)).length = 65521 := by
+    show (frame (some p)).length = _
+    rw [frame_data, List.length_append, fmtHex_length _ (by omega)]; omega
   rw [this]
-  exact ⟨rfl, by decide⟩
-
-/-- The full statement fails (F19): a 65517-byte payload is framed in one 65521-byte frame. -/
-theorem frame_statement_counterexample : ¬ FrameStatement := by
-  intro h
-  have h1 := (h (List.replicate 65517 0)).2
-  have h2 := (over_git_max_counterexample (List.replicate 65517 0) List.length_replicate).2
-  exact absurd h1 (Nat.not_le_of_lt h2)
+  exact ⟨by decide, (pktLine_none_iff p).mpr (by omega)⟩
 
 /-! ## 2. Every byte string offered as a length prefix is classified -/
 
@@ -108,8 +107,14 @@ EVERY fragmentation of the byte stream -/
 flush-pkts and payloads that fit comes back, followed by a clean hang-up. -/
 theorem protocol_roundtrip (ps : List Pkt) (h : ∀ x ∈ ps, Fits x) :
     readAll bytesRead (ps.length + 1) ⟨none, encode ps⟩ = (ps, .hangup) :=
-  readAll_roundtrip bytesRead_spec ps (ps.length + 1) (encode ps) trivial rfl
-    (fun x hx => ⟨h x hx, Or.inl trivial⟩) (Nat.lt_succ_self _)
+  readAll_roundtrip bytesRead_spec ps (ps.length + 1) (encode ps) trivial rfl h (Nat.lt_succ_self _)
+
+/-- **Encode-then-decode, blocking reader, no size hypothesis**: whatever `pkt_line` accepts (every
+call returned, none raised) reads back as the original sequence. -/
+theorem pkt_roundtrip_protocol (ps : List Pkt) (w : Bytes) (hw : wire ps = some w) :
+    readAll bytesRead (ps.length + 1) ⟨none, w⟩ = (ps, .hangup) := by
+  obtain ⟨rfl, hf⟩ := wire_eq_some ps w hw
+  exact protocol_roundtrip ps hf
 
 /-- Non-vacuity: `0005a`, flush, the empty pkt-line `0004`, `0006bc`. -/
 example : readAll bytesRead 5 ⟨none, encode [some [97], none, some [], some [98, 99]]⟩
@@ -122,7 +127,7 @@ leaves a state whose remaining stream is the rest. -/
 theorem receivable_read_is_blocking_read (n : Nat) (st : RP) (hn : 0 < n) (hv : ∀ c ∈ st.src, c ≠ []) :
     ∃ st', rpRead n st = some (st.stream.take n, st') ∧ st'.stream = st.stream.drop n ∧
       (∀ c ∈ st'.src, c ≠ []) := by
-  obtain ⟨out, st', h1, h2, h3, h4⟩ := rpRead_spec n st hv (Or.inl hn)
+  obtain ⟨out, st', h1, h2, h3, h4⟩ := rpRead_spec n st hv hn
   refine ⟨st', ?_, ?_, h4⟩
   · rw [h1, ← h2]
     congr 2
@@ -144,38 +149,40 @@ theorem receivable_read_is_blocking_read (n : Nat) (st : RP) (hn : 0 < n) (hv : 
       have : st'.stream = [] := List.eq_nil_of_length_eq_zero hlen
       rw [this, List.append_nil, List.drop_of_length_le (by omega)]
 
-/-- The full round-trip statement for `ReceivableProtocol`: every sequence of payloads that fit (the
-empty payload included, as the property's quantifier demands), every fragmentation.  False as coded
-(`receivable_empty_payload_counterexample`). -/
-def ReceivableRoundtripStatement : Prop :=
-  ∀ (ps : List Pkt) (cs : List Bytes), (∀ x ∈ ps, Fits x) → (∀ c ∈ cs, c ≠ []) → cs.flatten = encode ps →
-    readAll rpRead (ps.length + 1) ⟨none, ⟨[], cs⟩⟩ = (ps, .hangup)
-
-/-- **Round trip under every chunking, `ReceivableProtocol`.**  For every sequence of flush-pkts and
-non-empty payloads that fit, and EVERY way `recv` may cut the encoded byte stream into non-empty
-fragments, repeated `read_pkt_line` returns the original sequence and then hangs up cleanly.
-`_partial`: the hypothesis `x ≠ some []` (no empty payload) is forced by the proof — `read(0)` trips
-`assert size > 0`; with `read_pkt_line` skipping the body read for `size == 4` the full
-`ReceivableRoundtripStatement` would go through unchanged. -/
-theorem receivable_roundtrip_any_chunking_partial (ps : List Pkt) (cs : List Bytes)
-    (h : ∀ x ∈ ps, Fits x ∧ x ≠ some []) (hcs : ∀ c ∈ cs, c ≠ []) (hflat : cs.flatten = encode ps) :
+/-- **Round trip under every chunking, `ReceivableProtocol` (full).**  For every sequence of
+flush-pkts and payloads that fit the length field — the empty payload included — and EVERY way
+`recv` may cut the encoded byte stream into non-empty fragments, repeated `read_pkt_line` returns
+the original sequence and then hangs up cleanly. -/
+theorem receivable_roundtrip_any_chunking (ps : List Pkt) (cs : List Bytes)
+    (h : ∀ x ∈ ps, Fits x) (hcs : ∀ c ∈ cs, c ≠ []) (hflat : cs.flatten = encode ps) :
     readAll rpRead (ps.length + 1) ⟨none, ⟨[], cs⟩⟩ = (ps, .hangup) :=
   readAll_roundtrip rpRead_spec ps (ps.length + 1) ⟨[], cs⟩ hcs (by simpa [RP.stream] using hflat)
-    (fun x hx => ⟨(h x hx).1, Or.inr (h x hx).2⟩) (Nat.lt_succ_self _)
+    h (Nat.lt_succ_self _)
+
+/-- **Encode-then-decode under every chunking, `ReceivableProtocol`, no size hypothesis**: the bytes
+`pkt_line` produced for ANY payload sequence it accepted, cut into non-empty fragments in ANY way,
+read back as the original sequence. -/
+theorem pkt_roundtrip_receivable_any_chunking (ps : List Pkt) (w : Bytes) (cs : List Bytes)
+    (hw : wire ps = some w) (hcs : ∀ c ∈ cs, c ≠ []) (hflat : cs.flatten = w) :
+    readAll rpRead (ps.length + 1) ⟨none, ⟨[], cs⟩⟩ = (ps, .hangup) := by
+  obtain ⟨rfl, hf⟩ := wire_eq_some ps w hw
+  exact receivable_roundtrip_any_chunking ps cs hf hcs hflat
 
 /-- Non-vacuity: `0005a` `0000` `0006bc` delivered as `00|05a00|0|0000|6bc`. -/
 example : readAll rpRead 4 ⟨none, ⟨[], [[48, 48], [48, 53, 97, 48, 48], [48], [48, 48, 48, 48], [54, 98, 99]]⟩⟩
     = ([some [97], none, some [98, 99]], .hangup) := by decide
 
-/-- Negation witness (F-C19-rp-empty-pkt-line): the empty payload does not survive
-`ReceivableProtocol`: `pkt_line(b"") = b"0004"`, `read_pkt_line` calls `read(0)`, which trips
-`assert size > 0` — neither the payload nor a protocol error. -/
-theorem receivable_empty_payload_counterexample :
-    readAll rpRead 2 ⟨none, ⟨[], [pktLine (some [])]⟩⟩ = ([], .otherErr) ∧ ¬ ReceivableRoundtripStatement := by
-  refine ⟨by decide, fun h => ?_⟩
-  have := h [some []] [pktLine (some [])] (by intro x hx; simp at hx; subst hx; show 0 + 4 < 65536; omega)
-    (by decide) (by decide)
-  exact absurd this (by decide)
+/-- Non-vacuity with the empty payload: `0004` `0005a` delivered as `000|4000|5a`. -/
+example : readAll rpRead 3 ⟨none, ⟨[], [[48, 48, 48], [52, 48, 48, 48], [53, 97]]⟩⟩
+    = ([some [], some [97]], .hangup) := by decide
+
+/-- Regression witness (fixed F-C19-rp-empty-pkt-line, PENDING-2): the old `read_pkt_line` called
+`read(0)` for the empty pkt-line `0004` (= `pkt_line(b"")`), which trips `assert size > 0` in
+`ReceivableProtocol.read`: neither the payload nor a protocol error.  The new one returns `b""`. -/
+theorem old_receivable_empty_payload_witness :
+    (match Old.readCore rpRead ⟨[], [frame (some [])]⟩ with | .otherErr => true | _ => false) = true ∧
+    (match readCore rpRead ⟨[], [frame (some [])]⟩ with | .pkt (some []) _ => true | _ => false) = true := by
+  decide
 
 /-- A transport `read` that returns short (socket `recv` used directly): outside `Protocol`'s contract. -/
 def shortRead : Reader (List Bytes) := fun n s => some (srcRecv n s)
@@ -202,6 +209,12 @@ theorem parser_roundtrip_any_chunking (ps : List Pkt) (cs : List Bytes)
     (h : ∀ x ∈ ps, Fits x) (hflat : cs.flatten = encode ps) :
     feedAll [] cs = (ps, .tail []) := by
   rw [parser_chunking_independent, hflat, parse_encode ps h]
+
+/-- **Encode-then-decode under every chunking, `PktLineParser`, no size hypothesis.** -/
+theorem pkt_roundtrip_parser_any_chunking (ps : List Pkt) (w : Bytes) (cs : List Bytes)
+    (hw : wire ps = some w) (hflat : cs.flatten = w) : feedAll [] cs = (ps, .tail []) := by
+  obtain ⟨rfl, hf⟩ := wire_eq_some ps w hw
+  exact parser_roundtrip_any_chunking ps cs hf hflat
 
 example : feedAll [] [[48], [48, 48, 52, 48, 48], [48, 48, 48, 48, 48], [54, 98], [99, 48, 48]]
     = ([some [], none, some [98, 99]], .tail [48, 48]) := by decide
@@ -249,6 +262,7 @@ theorem reader_total : ∀ (n : Nat) (s : Bytes), s.length < n →
   have c4 : Gen.PktLine.rdMin = 4 := rfl
   have c5 : Gen.PktLine.rdHdr = 4 := rfl
   have c6 : Gen.PktLine.rdChk = 4 := rfl
+  have c7 : Gen.PktLine.rdEmpty = 4 := rfl
   intro n
   induction n using Nat.strongRecOn with
   | _ n ih =>
@@ -256,7 +270,7 @@ theorem reader_total : ∀ (n : Nat) (s : Bytes), s.length < n →
     cases n with
     | zero => omega
     | succ f =>
-      simp only [readAll, readPktLine, readCore, bytesRead, c1, c2, c3, c4, c5, c6]
+      simp only [readAll, readPktLine, readCore, bytesRead, c1, c2, c3, c4, c5, c6, c7]
       by_cases he : s.take 4 = []
       · simp [he]
       · simp only [he, if_false]
@@ -272,31 +286,46 @@ theorem reader_total : ∀ (n : Nat) (s : Bytes), s.length < n →
             by_cases h1 : size < 4
             · simp [h1]
             · simp only [h1, if_false]
-              by_cases h2 : ((s.drop 4).take (size - 4)).length + 4 = size
-              · simp only [h2, ne_eq, not_true_eq_false, if_false]
-                exact ih f (by omega) ((s.drop 4).drop (size - 4))
-                  (by simp only [List.length_drop]; omega)
-              · simp only [List.length_take, List.length_drop] at h2
-                simp [h2]
+              by_cases h3 : size > 4
+              · simp only [h3, if_true]
+                by_cases h2 : ((s.drop 4).take (size - 4)).length + 4 = size
+                · simp only [h2, ne_eq, not_true_eq_false, if_false]
+                  exact ih f (by omega) ((s.drop 4).drop (size - 4))
+                    (by simp only [List.length_drop]; omega)
+                · simp only [List.length_take, List.length_drop] at h2
+                  simp [h2]
+              · have h4 : size = 4 := by omega
+                subst h4
+                simp only [h3, if_false, List.length_nil, Nat.zero_add, ne_eq, not_true_eq_false]
+                exact ih f (by omega) (s.drop 4) (by simp only [List.length_drop]; omega)
 
 /-! ## 6. `eof()` / `unread_pkt_line` are transparent -/
 
 /-- Probing `eof()` before a read changes neither what `read_pkt_line` returns next nor what is
-left on the transport (any conforming reader, any frame that fits, empty payload allowed when the
-reader allows zero-length reads); on an exhausted stream `eof()` answers `True`. -/
-theorem eof_transparent {τ : Type} {rd : Reader τ} {abs : τ → Bytes} {Valid : τ → Prop} {z : Prop}
-    (hrd : ReadSpec rd abs Valid z) (s : τ) (x : Pkt) (rest : Bytes) (hv : Valid s)
-    (habs : abs s = pktLine x ++ rest) (hf : Fits x) (hz : z ∨ x ≠ some []) :
+left on the transport (any conforming reader, any frame that fits the length field — so also a
+peer's frame longer than what `pkt_line` would send; the empty payload included); on an
+exhausted stream `eof()` answers `True`. -/
+theorem eof_transparent {τ : Type} {rd : Reader τ} {abs : τ → Bytes} {Valid : τ → Prop}
+    (hrd : ReadSpec rd abs Valid) (s : τ) (x : Pkt) (rest : Bytes) (hv : Valid s)
+    (habs : abs s = frame x ++ rest) (hf : Fits x) :
     ∃ st' s', eof rd ⟨none, s⟩ = .ok false st' ∧ readPktLine rd st' = .pkt x ⟨none, s'⟩ ∧
       abs s' = rest ∧ Valid s' := by
-  obtain ⟨s', h1, h2, h3⟩ := readCore_frame hrd s x rest hv habs hf hz
-  obtain ⟨b', g1, _, _⟩ := readCore_frame bytesRead_spec (pktLine x) x [] trivial (by simp) hf (Or.inl trivial)
-  refine ⟨⟨some (pktLine x), s'⟩, s', ?_, ?_, h2, h3⟩
-  · simp [eof, readPktLine, h1, unreadPktLine]
+  obtain ⟨s', h1, h2, h3⟩ := readCore_frame hrd s x rest hv habs hf
+  obtain ⟨b', g1, _, _⟩ := readCore_frame bytesRead_spec (frame x) x [] trivial (by simp) hf
+  refine ⟨⟨some (frame x), s'⟩, s', ?_, ?_, h2, h3⟩
+  · have k1 : Gen.PktLine.unHdr = 4 := rfl
+    have k2 : Gen.PktLine.unMax = 65535 := rfl
+    have k3 : Gen.PktLine.unWidth = 4 := rfl
+    cases x with
+    | none => simp [eof, readPktLine, h1, unreadPktLine, pktLine]
+    | some d =>
+      have hfit : d.length + 4 < 65536 := hf
+      have : ¬ d.length + 4 > 65535 := by omega
+      simp [eof, readPktLine, h1, unreadPktLine, k1, k2, k3, this, frame_data]
   · simp [readPktLine, g1]
 
-theorem eof_at_end {τ : Type} {rd : Reader τ} {abs : τ → Bytes} {Valid : τ → Prop} {z : Prop}
-    (hrd : ReadSpec rd abs Valid z) (s : τ) (hv : Valid s) (habs : abs s = []) :
+theorem eof_at_end {τ : Type} {rd : Reader τ} {abs : τ → Bytes} {Valid : τ → Prop}
+    (hrd : ReadSpec rd abs Valid) (s : τ) (hv : Valid s) (habs : abs s = []) :
     ∃ st', eof rd ⟨none, s⟩ = .ok true st' := by
   obtain ⟨s', h⟩ := readCore_eof hrd s hv habs
   exact ⟨⟨none, s'⟩, by simp [eof, readPktLine, h]⟩
@@ -377,34 +406,38 @@ theorem receivable_recv_prefix (rb n : Nat) (st : RP) (hn : 0 < n) (hrb : 0 < rb
 
 /-! ## 8. side-band: split at 65515, every frame within git's limit, reassembly per channel -/
 
-/-- **`write_sideband` never exceeds git's frame limit** and every write is one well-formed frame
-carrying the channel byte and a non-empty slice of the blob; the slices concatenate to the blob.
-(Depends on `blob[:65515]`: 65515 + 1 + 4 = 65520.) -/
+/-- **`write_sideband` never raises and never exceeds git's frame limit**: `pkt_line` accepts every
+slice (the result is `some (sbFrames …)`), every write is one well-formed frame of at most 65520
+bytes carrying the channel byte and a non-empty slice of the blob, and the slices concatenate to
+the blob.  (Depends on `blob[:65515]` and `MAX_PKT_LINE_DATA_LEN`: 65515 + 1 = 65516.) -/
 theorem sideband_split_ok (ch : UInt8) (blob : Bytes) :
-    (∀ f ∈ writeSideband ch blob, f.length ≤ gitLargePacketMax ∧
-      ∃ c, c ≠ [] ∧ WellFramed f (ch :: c)) ∧
+    writeSideband ch blob = some (sbFrames ch blob) ∧
+    (∀ f ∈ sbFrames ch blob, f.length ≤ gitLargePacketMax ∧ ∃ c, c ≠ [] ∧ WellFramed f (ch :: c)) ∧
     (sbChunks blob.length blob).flatten = blob := by
-  refine ⟨fun f hf => ?_, sbChunks_flatten _ _ (Nat.le_refl _)⟩
-  simp only [writeSideband, List.mem_map] at hf
+  refine ⟨writeSideband_eq ch blob, fun f hf => ?_, sbChunks_flatten _ _ (Nat.le_refl _)⟩
+  simp only [sbFrames, List.mem_map] at hf
   obtain ⟨c, hc, rfl⟩ := hf
   obtain ⟨b1, b2⟩ := sbChunks_bounds _ _ c hc
   have k : Gen.PktLine.sbChunk = 65515 := rfl
-  have hg : gitLargePacketMax = 65520 := rfl
-  have := frame_within_git_max_partial (ch :: c) (by rw [hg]; simp only [List.length_cons]; omega)
-  refine ⟨this.2, c, ?_, this.1⟩
-  intro h; rw [h] at b1; simp at b1
+  have hlen : (ch :: c).length ≤ 65516 := by simp only [List.length_cons]; omega
+  rcases frame_statement (ch :: c) with ⟨h, _⟩ | ⟨f, h1, h2, h3⟩
+  · rw [pktLine_some _ hlen] at h; cases h
+  · rw [pktLine_some _ hlen] at h1
+    cases h1
+    refine ⟨h3, c, ?_, h2⟩
+    intro h; rw [h] at b1; simp at b1
 
 /-- **Side-band round trip, blocking reader**: any sequence of writes on any channels, followed by
 a flush-pkt and anything else: `read_pkt_seq` + `_read_side_band64k_data` yield exactly the
 `(channel, slice)` pairs, in order, and leave the transport right after the flush-pkt. -/
 theorem sideband_roundtrip (writes : List (UInt8 × Bytes)) (rest : Bytes) :
     ∃ pk, readPktSeq bytesRead ((sbPackets writes).length + 1)
-        ⟨none, (writes.flatMap (fun w => writeSideband w.1 w.2)).flatten ++ (pktLine none ++ rest)⟩
+        ⟨none, (writes.flatMap (fun w => sbFrames w.1 w.2)).flatten ++ (frame none ++ rest)⟩
       = (pk, none, ⟨none, rest⟩) ∧ sidebandDemux pk = some (sbPairs writes) := by
   have hw := sideband_wire writes
   obtain ⟨s', h1, h2, _⟩ := readPktSeq_roundtrip bytesRead_spec rest (sbPackets writes)
     ((sbPackets writes).length + 1)
-    ((writes.flatMap (fun w => writeSideband w.1 w.2)).flatten ++ (pktLine none ++ rest)) trivial
+    ((writes.flatMap (fun w => sbFrames w.1 w.2)).flatten ++ (frame none ++ rest)) trivial
     (by simp only [hw]) (sbPackets_ok writes) (Nat.lt_succ_self _)
   have h2' : s' = rest := h2
   subst h2'
@@ -414,7 +447,7 @@ theorem sideband_roundtrip (writes : List (UInt8 × Bytes)) (rest : Bytes) :
 `recv` may fragment the wire bytes. -/
 theorem sideband_roundtrip_any_chunking (writes : List (UInt8 × Bytes)) (cs : List Bytes)
     (hcs : ∀ c ∈ cs, c ≠ [])
-    (hflat : cs.flatten = (writes.flatMap (fun w => writeSideband w.1 w.2)).flatten ++ pktLine none) :
+    (hflat : cs.flatten = (writes.flatMap (fun w => sbFrames w.1 w.2)).flatten ++ frame none) :
     ∃ pk st', readPktSeq rpRead ((sbPackets writes).length + 1) ⟨none, ⟨[], cs⟩⟩ = (pk, none, ⟨none, st'⟩) ∧
       st'.stream = [] ∧ sidebandDemux pk = some (sbPairs writes) := by
   obtain ⟨s', h1, h2, _⟩ := readPktSeq_roundtrip rpRead_spec [] (sbPackets writes) _ ⟨[], cs⟩ hcs
@@ -436,21 +469,32 @@ theorem sideband_reassembly (writes : List (UInt8 × Bytes)) (ch : UInt8) :
     · simp [h, sbChunks_flatten _ _ (Nat.le_refl _)]
     · simp [h]
 
-example : writeSideband 2 [104, 105] = [[48, 48, 48, 55, 2, 104, 105]] := by decide
+example : writeSideband 2 [104, 105] = some [[48, 48, 48, 55, 2, 104, 105]] := by decide
 
 /-! ## 9. `BufferedPktLineWriter`: what reaches the underlying writer is the pkt-line stream -/
 
 /-- **Buffered writer stream equality**, for every buffer size, every starting value of the
 `_buflen` counter (which `flush` never resets — the `_len` slip — and the model reproduces) and
-every sequence of writes: the blobs handed to the underlying writer, with the final `flush`,
-concatenate to `pkt_line(d1) ++ pkt_line(d2) ++ …`.  (Slice identity `l[:k] + l[k:] = l` for every
-integer `k`, negative ones included.) -/
-theorem buffered_writer_stream_eq (bufsize buflen : Nat) (ds : List Bytes) :
-    (bwRun bufsize ⟨[], buflen⟩ ds).flatten = encode (ds.map some) := by
-  simpa using bwRun_stream bufsize ds ⟨[], buflen⟩
+every sequence of writes that `pkt_line` accepts: no write raises, and the blobs handed to the
+underlying writer, with the final `flush`, concatenate to `pkt_line(d1) ++ pkt_line(d2) ++ …`.
+(Slice identity `l[:k] + l[k:] = l` for every integer `k`, negative ones included.) -/
+theorem buffered_writer_stream_eq (bufsize buflen : Nat) (ds : List Bytes) (h : ∀ d ∈ ds, d.length ≤ 65516) :
+    ∃ outs, bwRun bufsize ⟨[], buflen⟩ ds = some outs ∧ wire (ds.map some) = some outs.flatten := by
+  obtain ⟨outs, h1, h2⟩ := bwRun_stream bufsize ds ⟨[], buflen⟩ h
+  refine ⟨outs, h1, ?_⟩
+  have : (ds.map some).mapM pktLine = some ((ds.map some).map frame) :=
+    mapM_some_of_forall pktLine frame _ (fun x hx => by
+      obtain ⟨d, hd, rfl⟩ := List.mem_map.mp hx
+      exact pktLine_some d (h d hd))
+  simp only [wire, this, Option.map_some, h2, List.nil_append, encode]
+
+/-- a write that does not fit one pkt-line is refused (the ValueError of `pkt_line` propagates) -/
+theorem buffered_writer_refuses (bufsize : Nat) (st : BW) (d : Bytes) (ds : List Bytes) (h : 65516 < d.length) :
+    bwRun bufsize st (d :: ds) = none :=
+  bwRun_refuses bufsize st d ds h
 
 example : bwRun 12 ⟨[], 0⟩ [[97, 98], [99], [100, 101, 102, 103, 104], []]
-    = [[48, 48, 48, 54, 97, 98, 48, 48, 48, 53, 99, 48], [48, 48, 57, 100, 101, 102, 103, 104], [48, 48, 48, 52]] := by
+    = some [[48, 48, 48, 54, 97, 98, 48, 48, 48, 53, 99, 48], [48, 48, 57, 100, 101, 102, 103, 104], [48, 48, 48, 52]] := by
   decide
 
 /-! ## 10. `PackStreamReader._read`: the checksum trailer is tracked under any read sizes -/
@@ -479,32 +523,13 @@ example : trailerRun 3 ⟨[], []⟩ [[1, 2], [3], [], [4, 5, 6, 7, 8, 9], [10]] 
 
 /-! ## 11. capability lists and ref lines -/
 
-/-- The full statement over the property's alphabet (contents without NUL/LF; SP is the separator):
-every capability list survives `format_ref_line` / `extract_capabilities`.  False as coded
-(`caps_empty_list_counterexample`, `caps_edge_whitespace_counterexample`). -/
-def CapsRoundtripStatement : Prop :=
-  ∀ (ref sha : Bytes) (caps : List Bytes), (0 : UInt8) ∉ sha → (0 : UInt8) ∉ ref →
-    (∀ c ∈ caps, (32 : UInt8) ∉ c ∧ (0 : UInt8) ∉ c ∧ (10 : UInt8) ∉ c) →
-    extractCapabilities (formatRefLine ref sha (some caps)) = some (sha ++ [32] ++ ref, caps)
-
-/-- **Capability-list round trip** through `format_ref_line` / `extract_capabilities`, for every ref
-and sha without NUL and every non-empty capability list whose tokens contain neither SP nor NUL,
-whose first token does not start and whose last token does not end with ASCII whitespace (and
-neither is empty) — `CapsWF`, the hypothesis the proof forces (`strip()`/`rstrip()` without
-argument; the empty list is written as `\0\n` and read back as one empty token). -/
-theorem caps_roundtrip_partial (ref sha : Bytes) (caps : List Bytes) (hw : CapsWF caps)
+/-- **Capability-list round trip (full)** through `format_ref_line` / `extract_capabilities`: for
+every ref and sha without NUL and EVERY list — the empty one included — of non-empty capability
+tokens without NUL, LF and SP (`CapsWF`: the separator, the terminator and the field delimiter of
+the format itself; nothing else is excluded — TAB, CR, VT, FF, any other byte may occur anywhere). -/
+theorem caps_roundtrip (ref sha : Bytes) (caps : List Bytes) (hw : CapsWF caps)
     (hs : (0 : UInt8) ∉ sha) (hr : (0 : UInt8) ∉ ref) :
     extractCapabilities (formatRefLine ref sha (some caps)) = some (sha ++ [32] ++ ref, caps) := by
-  obtain ⟨i, c, b, e, hb⟩ := hw.last
-  obtain ⟨X, hX⟩ := joinWith_last 32 i c b
-  have hJ0 : (0 : UInt8) ∉ (32 :: joinWith 32 caps) := by
-    intro h
-    simp only [List.mem_cons] at h
-    rcases h with h | h
-    · exact absurd h (by decide)
-    · rcases mem_joinWith 32 0 caps h with h | ⟨p, hp, hx⟩
-      · exact absurd h (by decide)
-      · exact (hw.nosep p hp).2 hx
   have hT0 : (0 : UInt8) ∉ sha ++ [32] ++ ref := by
     simp only [List.mem_append, List.mem_cons, List.not_mem_nil, or_false]
     intro h
@@ -514,66 +539,94 @@ theorem caps_roundtrip_partial (ref sha : Bytes) (caps : List Bytes) (hw : CapsW
     · exact hr h
   unfold formatRefLine
   simp only
-  rw [formatCapabilityLine_eq caps hw.ne_nil]
-  have hline : sha ++ [32] ++ ref ++ [0] ++ (32 :: joinWith 32 caps) ++ [10]
-      = ((sha ++ [32] ++ ref) ++ 0 :: (32 :: joinWith 32 caps)) ++ [10] := by simp
-  rw [hline]
-  unfold extractCapabilities
-  have hc : (((sha ++ [32] ++ ref) ++ 0 :: (32 :: joinWith 32 caps)) ++ [10]).contains 0 = true := by simp
-  simp only [hc, not_true_eq_false, if_false]
-  rw [rstrip_snoc_ws _ _ (by decide)]
-  have hr2 : rstrip ((sha ++ [32] ++ ref) ++ 0 :: (32 :: joinWith 32 caps))
-      = (sha ++ [32] ++ ref) ++ 0 :: (32 :: joinWith 32 caps) := by
-    rw [e, hX]
-    have : (sha ++ [32] ++ ref) ++ 0 :: (32 :: (X ++ [b])) = ((sha ++ [32] ++ ref) ++ 0 :: (32 :: X)) ++ [b] := by simp
-    rw [this, rstrip_snoc_nonws _ _ hb]
-  rw [hr2, splitOn_append 0 _ _ hT0, splitOn_nosep 0 _ hJ0]
-  simp only
-  rw [strip_capline caps hw, splitOn_join 32 caps hw.ne_nil (fun p hp => (hw.nosep p hp).1)]
+  by_cases hne : caps = []
+  · subst hne
+    have hline : sha ++ [32] ++ ref ++ [0] ++ formatCapabilityLine [] ++ [10]
+        = (sha ++ [32] ++ ref) ++ 0 :: [10] := by simp [formatCapabilityLine]
+    rw [hline]
+    unfold extractCapabilities
+    have hc : ((sha ++ [32] ++ ref) ++ 0 :: [10]).contains 0 = true := by simp
+    simp only [hc, not_true_eq_false, if_false]
+    rw [splitOn_append 0 _ _ hT0, splitOn_nosep 0 [10] (by decide)]
+    have : stripBy isSepLf [10] = [] := by decide
+    simp [this]
+  · have hJ0 : (0 : UInt8) ∉ (32 :: joinWith 32 caps) ++ [10] := by
+      intro h
+      simp only [List.mem_append, List.mem_cons, List.not_mem_nil, or_false] at h
+      rcases h with (h | h) | h
+      · exact absurd h (by decide)
+      · rcases mem_joinWith 32 0 caps h with h | ⟨p, hp, hx⟩
+        · exact absurd h (by decide)
+        · exact hw.nosep 0 (Or.inr (Or.inr rfl)) p hp hx
+      · exact absurd h (by decide)
+    rw [formatCapabilityLine_eq caps hne]
+    have hline : sha ++ [32] ++ ref ++ [0] ++ (32 :: joinWith 32 caps) ++ [10]
+        = (sha ++ [32] ++ ref) ++ 0 :: ((32 :: joinWith 32 caps) ++ [10]) := by simp
+    rw [hline]
+    unfold extractCapabilities
+    have hc : ((sha ++ [32] ++ ref) ++ 0 :: ((32 :: joinWith 32 caps) ++ [10])).contains 0 = true := by simp
+    simp only [hc, not_true_eq_false, if_false]
+    rw [splitOn_append 0 _ _ hT0, splitOn_nosep 0 _ hJ0]
+    simp only
+    rw [strip_capline caps hw hne]
+    obtain ⟨b0, r, t, e0, _⟩ := hw.first hne
+    obtain ⟨J, hJ⟩ := joinWith_first 32 b0 r t
+    have hJne : joinWith 32 caps ≠ [] := by rw [e0, hJ]; simp
+    simp only [hJne, if_false]
+    rw [splitOn_join 32 caps hne (hw.nosep 32 (Or.inl rfl))]
 
-/-- Non-vacuity: `thin-pack`-like tokens `[ab, c=d]`. -/
-example : CapsWF [[97, 98], [99, 61, 100]] :=
-  ⟨by decide, ⟨97, [98], [[99, 61, 100]], rfl, by decide⟩, ⟨[[97, 98]], [99, 61], 100, rfl, by decide⟩⟩
+/-- Non-vacuity: tokens with TAB and CR at their edges are in the domain now. -/
+example : CapsWF [[9, 97, 98], [99, 61, 100, 13]] ∧ CapsWF [] := by
+  refine ⟨fun c hc => ?_, fun c hc => by simp at hc⟩
+  simp only [List.mem_cons, List.not_mem_nil, or_false] at hc
+  rcases hc with rfl | rfl <;> decide
 
-/-- **Want-line capability round trip** (`want <sha> cap cap…\n` as the client writes it). -/
-theorem want_caps_roundtrip_partial (cmd sha : Bytes) (caps : List Bytes) (hw : CapsWF caps)
+example : extractCapabilities (formatRefLine [114] [49] (some [[9, 97], [98, 13]]))
+    = some ([49, 32, 114], [[9, 97], [98, 13]]) := by decide
+
+/-- **Want-line capability round trip (full for non-empty lists)** (`want <sha> cap cap…\n` as the
+client writes it): every non-empty list of `CapsWF` tokens comes back, for any command word and
+sha without SP. -/
+theorem want_caps_roundtrip (cmd sha : Bytes) (caps : List Bytes) (hw : CapsWF caps) (hne : caps ≠ [])
     (hc : (32 : UInt8) ∉ cmd) (hs : (32 : UInt8) ∉ sha) :
     extractWantLineCapabilities (joinWith 32 (cmd :: sha :: caps) ++ [10]) = (cmd ++ 32 :: sha, caps) := by
-  obtain ⟨i, c, b, e, hb⟩ := hw.last
+  obtain ⟨i, c, b, e, hb⟩ := hw.last hne
   obtain ⟨X, hX⟩ := joinWith_last 32 (cmd :: sha :: i) c b
   have e' : cmd :: sha :: caps = (cmd :: sha :: i) ++ [c ++ [b]] := by rw [e]; rfl
   have k1 : Gen.PktLine.wantMin = 3 := rfl
   have k2 : Gen.PktLine.wantHead = 2 := rfl
   unfold extractWantLineCapabilities
-  rw [rstrip_snoc_ws _ _ (by decide)]
-  have hr : rstrip (joinWith 32 (cmd :: sha :: caps)) = joinWith 32 (cmd :: sha :: caps) := by
-    rw [e', hX, rstrip_snoc_nonws _ _ hb]
+  rw [rstrip_snoc_ws _ _ _ (by decide)]
+  have hr : rstripBy isSepLf (joinWith 32 (cmd :: sha :: caps)) = joinWith 32 (cmd :: sha :: caps) := by
+    rw [e', hX, rstrip_snoc_nonws _ _ _ hb]
   rw [hr, splitOn_join 32 _ (by simp) (by
     intro p hp
     simp only [List.mem_cons] at hp
     rcases hp with rfl | rfl | hp
     · exact hc
     · exact hs
-    · exact (hw.nosep p hp).1)]
-  have hne := hw.ne_nil
+    · exact hw.nosep 32 (Or.inl rfl) p hp)]
   cases caps with
   | nil => exact absurd rfl hne
   | cons c0 cr => simp [k1, k2, joinWith]
 
-/-- Negation witness (F-C19-caps-empty-list): the empty capability list comes back as `[b""]`. -/
-theorem caps_empty_list_counterexample :
-    extractCapabilities (formatRefLine [114] [49] (some [])) = some ([49, 32, 114], [[]]) ∧
-    ¬ CapsRoundtripStatement := by
-  refine ⟨by decide, fun h => ?_⟩
-  have := h [114] [49] [] (by decide) (by decide) (by simp)
-  exact absurd this (by decide)
+/-- a want line without capabilities (`want <sha> \n`, as the v0/v1 client writes for an empty set)
+yields no capabilities -/
+example : (extractWantLineCapabilities [119, 32, 49, 32, 10]).2 = [] := by decide
 
-/-- Negation witness (F-C19-caps-edge-whitespace): a TAB at the start of the first token and a CR at
-the end of the last one are stripped (`[b"\ta", b"b\r"]` comes back as `[b"a", b"b"]`); a trailing
-empty token of a want line is dropped. -/
-theorem caps_edge_whitespace_counterexample :
-    extractCapabilities (formatRefLine [114] [49] (some [[9, 97], [98, 13]])) = some ([49, 32, 114], [[97], [98]]) ∧
-    extractWantLineCapabilities (joinWith 32 [[119], [49], [97], []] ++ [10]) = ([119, 32, 49], [[97]]) := by
+/-- Regression witness (fixed F-C19-caps-empty-list, PENDING-3): the old `extract_capabilities` returned
+the empty capability list as `[b""]`; the new one returns `[]`. -/
+theorem old_caps_empty_list_witness :
+    Old.extractCapabilities (formatRefLine [114] [49] (some [])) = some ([49, 32, 114], [[]]) ∧
+    extractCapabilities (formatRefLine [114] [49] (some [])) = some ([49, 32, 114], []) := by decide
+
+/-- Regression witness (fixed F-C19-caps-edge-whitespace, PENDING-4): the old extractors stripped a TAB at
+the start of the first token and a CR at the end of the last one (`[b"\ta", b"b\r"]` came back as
+`[b"a", b"b"]`, also on the want line); the new ones keep them. -/
+theorem old_caps_edge_whitespace_witness :
+    Old.extractCapabilities (formatRefLine [114] [49] (some [[9, 97], [98, 13]])) = some ([49, 32, 114], [[97], [98]]) ∧
+    Old.extractWantLineCapabilities (joinWith 32 [[119], [49], [97], [98, 13]] ++ [10]) = ([119, 32, 49], [[97], [98]]) ∧
+    extractWantLineCapabilities (joinWith 32 [[119], [49], [97], [98, 13]] ++ [10]) = ([119, 32, 49], [[97], [98, 13]]) := by
   decide
 
 end Dulwich.Props.C19
